@@ -169,7 +169,27 @@ def _run_history(idx, ver, ops):
             info["problems"].append("not all data delivered: written %r read %r" % (W, Rd))
     # close: one side writes k bytes (a KeyUpdate / heartbeat in between on odd histories) and closes; the other had
     # asked for more than k and must be handed exactly those k bytes when the close_notify arrives
-    if not info["problems"] and not p.c.closed and not p.s.closed:
+    if not info["problems"] and not p.c.closed and not p.s.closed and ver == "13" and idx % 4 == 2:
+        # two-way close by an endpoint that keeps its socket (closeSocket=False) while data and a KeyUpdate of the peer
+        # are still in flight: it has to follow the peer's new keys to find the answering close_notify
+        from ..endpoints import Task, run_tasks, _close_gen
+        ep = "c" if (idx // 4) % 2 == 0 else "s"
+        peer = "s" if ep == "c" else "c"
+        saved = list(tr.events)
+        p.op(peer, conns[peer].writeAsync(b"in flight 1"))
+        p.op(peer, conns[peer].send_keyupdate_request(KeyUpdateMessageType.update_requested if idx % 8 == 2
+                                                      else KeyUpdateMessageType.update_not_requested))
+        p.op(peer, conns[peer].writeAsync(b"in flight 2"))
+        conns[ep].closeSocket = False
+        tcl = Task(ep, _close_gen(conns[ep]), p.csock if ep == "c" else p.ssock)
+        tpr = Task(peer, _read_gen(conns[peer], None, 1), p.ssock if ep == "c" else p.csock)
+        run_tasks([tcl, tpr], p.pipes, max_steps=20000)
+        if not tcl.out.ok:
+            info["problems"].append("close() with the peer's KeyUpdate in flight: %s (peer read: %s)" % (tcl.out.describe(), tpr.out.describe()))
+        elif tpr.out.exc is not None:
+            info["problems"].append("peer's read during the two-way close raised %s" % tpr.out.describe())
+        tr.events[:] = saved
+    elif not info["problems"] and not p.c.closed and not p.s.closed:
         ep = "c" if idx % 2 == 0 else "s"
         peer = "s" if ep == "c" else "c"
         d = "c2s" if ep == "c" else "s2c"
